@@ -75,9 +75,12 @@ class Server:
             self.q.put(None)
 
     def _stderr(self):
-        for line in self.proc.stderr:
-            if len(self.stderr_buf) < 400:
-                self.stderr_buf.append(line.decode("utf-8", "replace"))
+        try:
+            for line in self.proc.stderr:
+                if len(self.stderr_buf) < 400:
+                    self.stderr_buf.append(line.decode("utf-8", "replace"))
+        except (ValueError, OSError):          # the pipe was closed under us (kill): nothing more to read
+            pass
 
     def _send(self, obj):
         data = json.dumps(obj, ensure_ascii=False).encode("utf-8")
@@ -174,11 +177,10 @@ class Server:
             self.proc.wait(timeout=5)
         except Exception:
             pass
-        for s in (self.proc.stdin, self.proc.stdout, self.proc.stderr):
-            try:
-                s.close()
-            except Exception:
-                pass
+        try:
+            self.proc.stdin.close()            # (stdout/stderr are left to their reader threads, which end at EOF)
+        except Exception:
+            pass
 
 
 # ---------------------------------------------------------------- requests by kind
